@@ -402,11 +402,11 @@ Definition truth_ok t := match i_truth t with
                          | None => true end.
 Definition prop_table t := match i_truth t with Some tts => ok_table (c_names (tc t)) tts (i_tbl t) | None => true end.
 Definition prop_sorted t := forallb (fun p => ok_sorted (fst p) (i_tbl t) (snd p)) (i_sorts t).
-Record ecase := mke { ec : case; e_tbl : list node; e_runs : list (list key * list fld * list line);
+Record ecase := mke { ec : case; e_tbl : list node; e_runs : list (avg_mode * option (list skey) * option (list fld) * list line);
                       e_task : list (cell * cell * N); e_truth : option (list ttrace); e_diff0 : list (list cell); e_clean : bool;
                       e_other : option (case * list node * list dline) }.
-Definition e_model_ok t := forallb (fun r => let '(ks, fs, out) := r in lines_eqb (stdout_model ks fs (report (ec t))) out) (e_runs t).
-Definition e_prop_ok t := negb (e_clean t) || forallb (fun r => let '(ks, fs, out) := r in ok_stdout ks fs (e_tbl t) out) (e_runs t).
+Definition e_model_ok t := forallb (fun r => let '(m, s, f, out) := r in lines_eqb (stdout_model (report_keys m s f) (report_fields m f) (report (ec t))) out) (e_runs t).
+Definition e_prop_ok t := negb (e_clean t) || forallb (fun r => let '(m, s, f, out) := r in ok_stdout (report_keys m s f) (report_fields m f) (e_tbl t) out) (e_runs t).
 Definition e_task_model t := match e_task t with [] => true | l =>
    lines_eqb (map (fun p => (snd p, [fst (fst p); snd (fst p)])) l)
              (map (fun rs => let '(tot, n) := task_line (c_max (ec t)) rs in (n, [fmt_time tot; fmt_time tot])) (c_tasks (ec t))) end.
@@ -436,24 +436,35 @@ def q_tcase(case, res, amap, num):
 
 # ---------------------------------------------------------------- end-to-end option sets
 def e2e_option_sets(rng):
-    """(argv, model keys, model fields)"""
+    """(argv, avg mode, -s tokens or None, -f fields or None) - the model derives keys and columns itself"""
     allf = ",".join(FIELDS)
-    sets = [([], ["total"], ["total", "self", "call"]),
-            (["--avg-total"], ["total_avg"], ["total-avg", "total-min", "total-max"]),
-            (["--avg-self"], ["self_avg"], ["self-avg", "self-min", "self-max"]),
-            (["-f", allf], ["total"], FIELDS)]
+    sets = [([], "AVG_NONE", None, None),
+            (["--avg-total"], "AVG_TOTAL", None, None),
+            (["--avg-self"], "AVG_SELF", None, None),
+            (["-f", allf], "AVG_NONE", None, FIELDS)]
     for _ in range(3):
         ks = rng.sample(KEYS, rng.randrange(1, 4))
         fs = rng.sample(FIELDS, rng.randrange(1, 6))
         # -s accepts total-avg as well as total_avg when no --avg-* mode is given
         arg = ",".join(k.replace("_", "-") if rng.random() < 0.3 else k for k in ks)
-        sets.append((["-s", arg, "-f", ",".join(fs)], ks, fs))
+        sets.append((["-s", arg, "-f", ",".join(fs)], "AVG_NONE", ks, fs))
     # --avg-total / --avg-self rename the short keys avg/min/max
     which = rng.choice(["total", "self"])
     short = rng.sample(["avg", "min", "max"], 2)
-    sets.append((["--avg-" + which, "-s", ",".join(short)], ["%s_%s" % (which, s) for s in short],
-                 ["%s-%s" % (which, s) for s in ("avg", "min", "max")]))
+    sets.append((["--avg-" + which, "-s", ",".join(short)], "AVG_" + which.upper(), short, None))
+    # with -f the --avg-* option is ignored (a warning only)
+    which = rng.choice(["total", "self"])
+    fs = rng.sample(FIELDS, rng.randrange(1, 4))
+    sets.append((["--avg-" + which, "-f", ",".join(fs)], "AVG_" + which.upper(), None, fs))
     return sets
+
+
+def q_skey(k):
+    return "S_" + k if k in ("avg", "min", "max") else "SK K_" + k
+
+
+def q_opt(x):
+    return "None" if x is None else "(Some %s)" % x
 
 
 def nm_of(case, a):
@@ -480,7 +491,7 @@ def q_dcell(c):
 def run_e2e(ctx, objdir, case, d, res, amap, num, exe2=None):
     """returns Coq term of the ecase or None"""
     runs = []
-    for argv, ks, fs in e2e_option_sets(ctx.rng):
+    for argv, mode, ks, fs in e2e_option_sets(ctx.rng):
         rc, out, err = datadir.uftrace(objdir, "report", d, argv)
         pr = parse_report(out)
         if rc != 0 or pr is None:
@@ -492,7 +503,8 @@ def run_e2e(ctx, objdir, case, d, res, amap, num, exe2=None):
         # --avg-* add a stdv column that the model does not describe: drop it
         keep = [i for i, h in enumerate(heads[:-1]) if "stdv" not in h]
         lines = ["(%d, %s)" % (num.get(name, 0), q_list([q_cell(cells[i]) for i in keep])) for cells, name in rows]
-        runs.append("(%s, %s, %s)" % (q_list([q_key(k) for k in ks]), q_list([q_fld(f) for f in fs]), q_list(lines)))
+        runs.append("(%s, %s, %s, %s)" % (mode, q_opt(None if ks is None else q_list([q_skey(k) for k in ks])),
+                                          q_opt(None if fs is None else q_list([q_fld(f) for f in fs])), q_list(lines)))
         ctx.tag("e2e:" + (argv[0] if argv else "default"))
     # --task (LOST-free tasks only: the model of report_task covers those)
     task_lines = []
